@@ -74,7 +74,12 @@ impl<I: Interner> Solver<I> for SLGSolver<I> {
                         SubstitutionResult::Ambiguous(answer.subst)
                     }
                 }
-                AnswerResult::Floundered => SubstitutionResult::Floundered,
+                AnswerResult::Floundered => {
+                    // A floundered table never recovers, so every further
+                    // `next_answer` would flounder again: report it once, with
+                    // no answer following, instead of looping until `f` gives up.
+                    return f(SubstitutionResult::Floundered, false);
+                }
                 AnswerResult::NoMoreSolutions => {
                     return true;
                 }
